@@ -1,18 +1,25 @@
-"""C07 - wallet-created transactions conserve value: the fee-bump arithmetic (Transaction.bumpfee + update_totals).
+"""C07 - wallet-created transactions conserve value: coin selection, transaction creation with an explicit fee, and the
+fee-bump arithmetic.
 
-Real code executed symbolically: Transaction.bumpfee, Transaction.update_totals on skeleton objects (inputs / outputs
-carry only value and change flag; re-signing is replaced by the real update_totals).
-Coin selection and Wallet.transaction_create are SQLAlchemy-backed and are NOT encoded (see OUTSIDE)."""
+Real code executed symbolically (linear integer arithmetic, symx.lia): Wallet.select_inputs, Wallet.transaction_create
+(explicit integer fee, automatic input selection, one change output), WalletTransaction / Transaction.add_input /
+add_output / estimate_size, Transaction.bumpfee + update_totals.
+The database is a stand-in session (symx.sqlmini) that EVALUATES the SQLAlchemy filter / order_by expressions the
+library builds over rows with symbolic amounts, confirmation counts and spent flags; counterexamples are replayed
+against a real sqlite wallet."""
 from symx import core, shims, lia
 from symx.core import SInt, s_and, s_or, s_not
 from vtlib.api import Job, kf
 
 PROPERTY = 'C07'
-ASSUMPTIONS = ['re-signing (sign_and_update) is replaced by the real Transaction.update_totals: signatures do not influence amounts',
+ASSUMPTIONS = ['the database is modelled by symx.sqlmini: filter / order_by / first / all of the SQLAlchemy expressions the library builds, evaluated over stand-in rows (ties in ORDER BY keep insertion order; validated by replay on sqlite)',
+               'bumpfee: re-signing (sign_and_update) is replaced by the real Transaction.update_totals: signatures do not influence amounts',
+               'transaction_create: key lookup (_objects_by_key_id), change-key generation (get_keys) and the fee provider are stubs returning one fixed public key / change address / fee rate; the final signature_hash (txid) is skipped',
+               'int(a * 1000.0 / b) is over-approximated by floor or floor + 1 (symx.lia.SFloatQ); no obligation depends on it',
                'amounts, fees and sizes are arbitrary integers in the stated ranges']
-BOUNDS = {'quick': 'one input, one recipient output and 0..5 change outputs, every amount 0..21e14, every old fee >= 1, vsize 60..100000, fee / extra_fee arguments 0..10^12 (also the default bump)',
-          'thorough': 'same with 0..7 change outputs'}
-OUTSIDE = 'Wallet.select_inputs, Wallet.transaction_create / send / sweep (SQLAlchemy queries, provider fee estimates), fee-rate limits, WalletTransaction.bumpfee wrapper'
+BOUNDS = {'quick': 'select_inputs: every set of <= 3 UTXOs (value 0..21e14, confirmations 0..10, spent or not), amount 1..21e14, min_confirms 0..3, max_utxos in {None, 1, 2}; transaction_create: <= 2 UTXOs, one recipient, amount 1..21e14, explicit fee 0..10^9, max_utxos in {None, 1}, one change output; bumpfee: one input, one recipient and 0..5 change outputs, old fee >= 1, vsize 60..100000, fee / extra_fee 0..10^12',
+          'thorough': 'select_inputs <= 4 UTXOs, transaction_create <= 3 UTXOs, bumpfee 0..7 change outputs'}
+OUTSIDE = 'automatic / named fees (provider estimate x size in float arithmetic), explicit input lists, several or random change outputs (numpy dirichlet), send / sweep, multisig and non-segwit wallets, the fee-rate limit checks themselves, WalletTransaction.bumpfee wrapper, that a sufficient UTXO set is always found (C07 does not demand it; see DESIGN.md)'
 MAXV = 21 * 10 ** 14
 
 
@@ -76,7 +83,212 @@ def h_bumpfee(ex, nchange):
     ex.check(s_or(t.fee == requested, len(t.outputs) < len(outs)), 'fee-exceeds-request-only-when-a-change-output-is-dropped')
 
 
+# ---------------------------------------------------------------------------------------------------------------
+# coin selection: the real Wallet.select_inputs over a stand-in database (symx.sqlmini evaluates the SQLAlchemy filters)
+
+def _wallet(ex, utxo_rows, key_rows=None):
+    import bitcoinlib.wallets as WL
+    from symx import sqlmini
+    wrow = sqlmini.Row(id=1, name='w', owner='', network_name='bitcoin', purpose=84, scheme='bip32', main_key_id=None, default_account_id=0,
+                       multisig_n_required=1, sort_keys=False, witness_type='segwit', encoding='bech32', multisig=False, cosigner_id=None,
+                       key_path="m/purpose'/coin_type'/account'/change/address_index", parent_id=None, anti_fee_sniping=False)
+    acc = sqlmini.Row(id=1, wallet_id=1, purpose=84, depth=3, network_name='bitcoin', account_id=0, public=b'\x02' + b'\x11' * 32, wallet=wrow)
+    tables = {'wallets': [wrow], 'keys': [acc] + list(key_rows or []), 'transaction_outputs': utxo_rows}
+    session = sqlmini.Session(tables)
+    real_query = session.query
+
+    def query(*ents):
+        q = real_query(*ents)
+        if q.table == 'wallets' and len(ents) == 1:
+            # Wallet.__init__: the wallet row by id / the (absent) cosigner wallets
+            class _W(sqlmini.Query):
+                def filter(self, *a):
+                    return sqlmini.Query(self.session, 'wallets', [])
+            return _W(session, 'wallets', [wrow])
+        return q
+    session.query = query
+    w = WL.Wallet(1, session=session)
+    return w
+
+
+UTXO_ADDR = 'bc1qw508d6qejxtdg4y5r3zarvary0c5xw7kv8f3t4'           # p2wpkh address of the generator point key (BIP173 example)
+RECIPIENT = 'bc1qar0srrr7xfkvy5l643lydnw9re59gtzzwf5mdq'          # BIP173 example address (not a wallet key)
+CHANGE_ADDR = 'bc1qrp33g0q5c5txsp9arysrx4k6zdkfs4nce4xj0gdcccefvpysxf3qccfmv3'
+
+
+def mk_utxos(ex, n):
+    from symx import sqlmini
+    rows = []
+    for i in range(n):
+        tx = sqlmini.Row(id=i + 1, wallet_id=1, account_id=0, network_name='bitcoin', confirmations=ex.lint('confirmations%d' % i, 0, 10),
+                         txid=bytes([i + 1]) * 32)
+        key = sqlmini.Row(id=10 + i, public=b'\x02' + bytes([i + 1]) * 32, address=UTXO_ADDR, witness_type='segwit', path='m', compressed=True,
+                          network_name='bitcoin')
+        rows.append(sqlmini.Row(_tag='utxo%d' % i, transaction=tx, key=key, key_id=10 + i, output_n=0, script_type='p2wpkh',
+                                value=ex.lint('value%d' % i, 0, MAXV), spent=ex.choose('spent%d' % i, [False, True]), transaction_id=i + 1))
+    return rows
+
+
+def _real_wallet_with_utxos(ex, n):
+    """replay: a real sqlite wallet holding the recorded UTXO set"""
+    import tempfile
+    from bitcoinlib.wallets import Wallet
+    from bitcoinlib.db import DbTransactionOutput, DbTransaction
+    d = tempfile.mkdtemp(prefix='c07w')
+    w = Wallet.create('w', network='bitcoin', witness_type='segwit', db_uri='sqlite:///%s/w.db' % d)
+    rows = []
+    for i in range(n):
+        k = w.new_key()
+        val, conf, spent = int(ex.lint('value%d' % i, 0, MAXV)), int(ex.lint('confirmations%d' % i, 0, 10)), ex.choose('spent%d' % i, [False, True])
+        txid = (bytes([i + 1]) * 32).hex()
+        if val > 0:
+            w.utxos_update(utxos=[dict(address=k.address, script='', confirmations=conf, output_n=0, txid=txid, value=val)])
+        if spent and val > 0:
+            o = w.session.query(DbTransactionOutput).join(DbTransaction).filter(DbTransaction.txid == bytes.fromhex(txid)).first()
+            o.spent = True
+            w.session.commit()
+        rows.append(dict(txid=bytes.fromhex(txid), value=val, confirmations=conf, spent=spent or val == 0))
+    return w, rows, d
+
+
+def h_select_inputs(ex, n):
+    """Wallet.select_inputs(amount, max_utxos=.., min_confirms=..) over EVERY set of n UTXOs (any values, any
+    confirmation counts, spent or not): the selection consists of distinct unspent, sufficiently confirmed, non-dust
+    outputs of the wallet, covers the amount and respects max_utxos.  (That an empty answer means 'no admissible subset'
+    is NOT demanded: C07 only asks that insufficient funds fail, and the library's confirmations-first ordering can
+    miss a sufficient pair under a max_utxos cap - observed, not a violation of the statement.)"""
+    import bitcoinlib.wallets as WL
+    amount = ex.lint('amount', 1, MAXV)
+    min_confirms = ex.lint('min_confirms', 0, 3) if not ex.concrete else int(ex.lint('min_confirms', 0, 3))
+    max_utxos = ex.choose('max_utxos', [None, 1, 2])
+    scratch = None
+    DUST = 1000
+    if ex.concrete:
+        w, rows, scratch = _real_wallet_with_utxos(ex, n)
+        amount = int(amount)
+    else:
+        utx = mk_utxos(ex, n)
+        w = _wallet(ex, utx)
+    try:
+        try:
+            sel = w.select_inputs(amount, min_confirms=min_confirms, max_utxos=max_utxos, return_input_obj=False)
+            refused = False
+        except WL.WalletError:
+            sel, refused = [], True
+        if ex.concrete:
+            def rec(u):
+                return [r for r in rows if r['txid'] == u.transaction.txid][0]
+            picked = [rec(u) for u in sel]
+        else:
+            picked = [dict(row=u, value=u.value, confirmations=u.transaction.confirmations, spent=u.spent) for u in sel]
+        for k, r in enumerate(picked):
+            ex.check(s_and(r['spent'] is False, r['confirmations'] >= min_confirms, r['value'] >= DUST), 'selected-outputs-are-unspent-confirmed-non-dust')
+        ids = [id(r.get('row', None)) if 'row' in r else r['txid'] for r in picked]
+        ex.check(len(set(ids)) == len(ids), 'selected-outputs-are-distinct')
+        if picked:
+            ex.check(sum(r['value'] for r in picked) >= amount, 'selection-covers-the-amount')
+            ex.check(max_utxos is None or len(picked) <= max_utxos, 'selection-respects-max-utxos')
+    finally:
+        if scratch:
+            try:
+                w.session.close()
+            except Exception:
+                pass
+            __import__('shutil').rmtree(scratch, ignore_errors=True)
+
+
+class _FakeService:
+    fee_per_kb = 2000
+
+    def __init__(self, *a, **k):
+        pass
+
+    def blockcount(self):
+        return 0
+
+    def estimatefee(self, *a, **k):
+        return _FakeService.fee_per_kb
+
+
+class _ChangeKey:
+    def __init__(self, key_id):
+        self.key_id, self.address = key_id, CHANGE_ADDR
+
+
+def h_create(ex, n):
+    """Wallet.transaction_create([(recipient, amount)], fee=<explicit integer>) over every set of n UTXOs: on success
+    inputs = outputs + reported fee, the fee is not negative and is at least the requested one, no output is negative,
+    the recipient appears exactly once with the requested amount, every other output is a change output of this wallet,
+    the inputs are distinct unspent confirmed outputs of the wallet; with insufficient funds the request is refused"""
+    import bitcoinlib.wallets as WL
+    import bitcoinlib.transactions as T
+    import random as _random
+    amount = ex.lint('amount', 1, MAXV)
+    fee = ex.lint('fee', 0, 10 ** 9)
+    max_utxos = ex.choose('max_utxos', [None, 1])
+    scratch = None
+    if ex.concrete:
+        w, rows, scratch = _real_wallet_with_utxos(ex, n)
+        w.anti_fee_sniping = False
+        amount, fee = int(amount), int(fee)
+        total_avail = sum(r['value'] for r in rows if not r['spent'] and r['confirmations'] >= 1 and r['value'] >= 1000)
+    else:
+        utx = mk_utxos(ex, n)
+        ex.assume(sum(u.value for u in utx) <= MAXV)
+        w = _wallet(ex, utx)
+        pubkey = WL.HDKey(b'\x02' + bytes.fromhex('79be667ef9dcbbac55a06295ce870b07029bfcdb2dce28d959f2815b16f81798'), witness_type='segwit')
+        w._objects_by_key_id = lambda key_id: ([pubkey], [u.key for u in utx if u.key_id == key_id][0])
+        w.get_keys = lambda *a, **k: [_ChangeKey(99)]
+        w.get_key = lambda *a, **k: _ChangeKey(99)
+        shims.install(WL, Service=_FakeService, random=_random.Random(7))
+        shims.install(T, random=_random.Random(7))
+        shims.install(WL.WalletTransaction, signature_hash=lambda self, *a, **k: b'\x00' * 32)
+        total_avail = sum(u.value for u in utx if not u.spent and bool(u.transaction.confirmations >= 1) and bool(u.value >= 1000))
+    try:
+        try:
+            t = w.transaction_create([(RECIPIENT, amount)], fee=fee, max_utxos=max_utxos, number_of_change_outputs=1)
+        except WL.WalletError:
+            return                      # refusing is always allowed by the statement (C07 demands refusal when funds are short)
+        ins, outs = t.inputs, t.outputs
+        tin, tout = sum(i.value for i in ins), sum(o.value for o in outs)
+        ex.check(tin == tout + t.fee, 'inputs-equal-outputs-plus-reported-fee')
+        ex.check(s_and(t.fee >= 0, t.fee >= fee), 'fee-not-negative-and-at-least-requested')
+        ex.check(s_and(*[o.value >= 0 for o in outs]), 'no-negative-output')
+        rec = [o for o in outs if o.address == RECIPIENT]
+        ex.check(len(rec) == 1 and rec[0].value == amount, 'recipient-once-with-exact-amount')
+        others = [o for o in outs if o.address != RECIPIENT]
+        ex.check(all(o.change and o.key_id is not None for o in others), 'other-outputs-are-change-of-this-wallet')
+        ex.check(tin <= total_avail, 'inputs-come-from-the-admissible-unspent-set')
+        ex.check(len(set((bytes(i.prev_txid), int(i.output_n_int)) for i in ins)) == len(ins), 'inputs-are-distinct')
+        ex.check(amount + fee <= total_avail, 'insufficient-funds-are-refused')
+    finally:
+        if scratch:
+            try:
+                w.session.close()
+            except Exception:
+                pass
+            __import__('shutil').rmtree(scratch, ignore_errors=True)
+
+
+def wsetup(ex):
+    setup(ex)
+    lia.COARSE_DIV = True            # int(a * 1000.0 / b): floor or floor + 1 (sound over-approximation, see symx.lia.SFloatQ)
+    from harness import c17          # (registers SFloat.is_integer)
+    import bitcoinlib.wallets as WL
+    from harness import c12
+    import bitcoinlib.transactions as T
+    import bitcoinlib.values as V
+    shims.install(WL, int=lia.IntShimL, float=lia.FloatShim, _logger=c12.NullLog(), logger=c12.NullLog())
+    shims.install(T, float=lia.FloatShim)
+    shims.install(V, int=lia.IntShimL, float=lia.FloatShim)
+    shims.rewrite_function(WL.Wallet, 'transaction_create')      # ('...%d...' % amount in error messages stays symbolic)
+
+
 def jobs(tier):
     q = tier == 'quick'
-    return [Job('bumpfee_%dchange' % n, h_bumpfee, W=8, setup=setup, params=dict(nchange=n), budget_s=3000)
-            for n in ([0, 1, 2, 3, 4, 5] if q else [0, 1, 2, 3, 4, 5, 6, 7])]
+    J = [Job('bumpfee_%dchange' % n, h_bumpfee, W=8, setup=setup, params=dict(nchange=n), budget_s=3000)
+         for n in ([0, 1, 2, 3, 4, 5] if q else [0, 1, 2, 3, 4, 5, 6, 7])]
+    J += [Job('select_inputs_%dutxos' % n, h_select_inputs, W=8, setup=wsetup, params=dict(n=n), budget_s=3000)
+          for n in ([1, 2, 3] if q else [1, 2, 3, 4])]
+    J += [Job('create_%dutxos' % n, h_create, W=8, setup=wsetup, params=dict(n=n), budget_s=3000) for n in ([1, 2] if q else [1, 2, 3])]
+    return J
